@@ -16,10 +16,16 @@ def main():
 
     env.set_env(os.path.join(store, "env"), default_storage=env.fs_backend(os.path.join(store, "data")))
     first = json.loads(order)
+    plugin = sys.argv[6] if len(sys.argv) > 6 else "last"
+    has_plugin = os.path.exists(os.path.join(src, pkg, "p.py"))
+    if has_plugin and plugin == "first":  # the plug-in module (it imports module a itself) before the other modules
+        importlib.import_module(pkg + ".p")
     if first and first[0][0] == "b":  # import order of the two modules follows the query order
         importlib.import_module(pkg + ".b")
     importlib.import_module(pkg + ".a")
     importlib.import_module(pkg + ".b")
+    if has_plugin:
+        importlib.import_module(pkg + ".p")
     out = {}
     for mod, name in first:
         fn = getattr(sys.modules[{"a": pkg + ".a", "b": pkg + ".b", "i": pkg, "e": pkg + "_ext.lib"}[mod]], name)
